@@ -11,6 +11,7 @@ object was destroyed exactly once. A vmod2 object is never accepted where vmod w
 """
 import copy
 import itertools
+import os
 import time
 
 from .. import build
@@ -510,6 +511,99 @@ def check_wrongmod(case, res, vs):
     return vs, True
 
 
+# ------------------------------------------------------------------------------------------------
+# the bloc command as host: every object a script created is destroyed exactly once by the time the process ends, whatever
+# the script did with it last (returned it, kept it in a variable, left it in a table, died with an error)
+CLI_PROGS = [
+    ("return-variable", "import vmod; a = vmod(1); return a;", 1),
+    ("return-temporary", "import vmod; return vmod(2);", 1),
+    ("return-copy", "import vmod; a = vmod(1); b = a; return b;", 1),
+    ("return-integer", "import vmod; a = vmod(1); b = a; return 5;", 1),
+    ("return-table", "import vmod; t = tab(2, vmod(3)); return t;", 2),
+    ("return-tuple", "import vmod; return tup(vmod(4), 1);", 1),
+    ("return-method-result", "import vmod; a = vmod(1); return a.self();", 1),
+    ("return-made", "import vmod; a = vmod(1); return a.make();", 2),
+    ("return-from-function", "import vmod; function mk() return vmod is begin return vmod(8); end; return mk();", 1),
+    ("return-nothing", "import vmod; a = vmod(1); return;", 1),
+    ("no-return", "import vmod; a = vmod(1); t = tab(1, a); u = tup(a, 2);", 1),
+    ("unhandled-error", "import vmod; a = vmod(1); b = vmod(2); raise boom;", 2),
+    ("runtime-error-in-expression", "import vmod; a = vmod(1); zz = vmod(2).get() / (a.get() - a.get());", 2),
+    ("compile-error", "import vmod; a = vmod(1); x = 1 +;", 0),
+    ("print-then-return", 'import vmod; a = vmod(1); print a.get(); return vmod(a);', 2),
+]
+CLI_INTERACTIVE = [
+    ("i-keep", ["import vmod;", "a = vmod(1);", "b = a;", "print a.get();"], 1),
+    ("i-drop", ["import vmod;", "a = vmod(1);", "a = null;", "b = vmod(2);"], 2),
+    ("i-error", ["import vmod;", "a = vmod(1);", "x = vmod(2).get() / 0;", "print a.get();"], 2),
+    ("i-return", ["import vmod;", "a = vmod(1);", "return a;"], 1),
+]
+
+
+def cli_pass(tier):
+    import subprocess
+    from .c19 import exe_env
+    res = Result()
+    exe, env = exe_env()
+    env["LD_LIBRARY_PATH"] = build.run_env("asan")["LD_LIBRARY_PATH"]
+    sdir = os.path.join(build.BUILD, "scratch", "c17-cli")
+    os.makedirs(sdir, exist_ok=True)
+    jobs = []
+    for name, text, nobj in CLI_PROGS:
+        path = os.path.join(sdir, name + ".bloc")
+        with open(path, "w") as f:
+            f.write(text + "\n")
+        jobs.append((name, "file", [path], None, nobj, text))
+        jobs.append((name, "stdin", ["-"], (text + "\n").encode(), nobj, text))
+        jobs.append((name, "out", ["--out=" + os.path.join(sdir, name + ".out"), path], None, nobj, text))
+    for name, lines, nobj in CLI_INTERACTIVE:
+        jobs.append((name, "interactive", ["-i"], ("\n".join(lines) + "\n").encode(), nobj, " ".join(lines)))
+    for name, mode, argv, stdin, nobj, text in jobs:
+        fd = os.memfd_create("vmodlog")
+        e2 = dict(env)
+        e2["VMOD_LOG_FD"] = str(fd)
+        try:
+            p = subprocess.run([exe] + argv, input=stdin, stdout=subprocess.PIPE, stderr=subprocess.PIPE, env=e2, timeout=30, pass_fds=(fd,), cwd=sdir)
+            rc = p.returncode
+        except subprocess.TimeoutExpired:
+            rc = "timeout"
+        size = os.lseek(fd, 0, os.SEEK_END)
+        log = os.pread(fd, size, 0).decode("latin-1")
+        os.close(fd)
+        res.evaluations += 1
+        res.transitions += len(log.splitlines())
+        res.nontrivial += 1
+        created, destroyed, bad = [], {}, []
+        for e in parse_log(log):
+            if e[0] == "X":
+                bad.append(" ".join(e))
+            if len(e) > 2 and e[1] == "vmod" and e[0] == "C":
+                created.append(int(e[2]))
+            if len(e) > 2 and e[1] == "vmod" and e[0] == "D":
+                destroyed[int(e[2])] = destroyed.get(int(e[2]), 0) + 1
+        res.digests.add(repr((name, mode, rc, len(created), sorted(destroyed.items()))).encode())
+
+        def viol(key, msg):
+            ent = res.viols.setdefault(key, {"count": 0, "first": None})
+            ent["count"] += 1
+            if ent["first"] is None:
+                ent["first"] = (Violation(key, "bloc %s (%s): %s; exit %s; log:\n%s" % (" ".join(argv), text, msg, rc, log[:600]), None,
+                                          {"program": text, "mode": mode, "log": log}), {})
+        if rc == "timeout" or not isinstance(rc, int) or rc < 0 or rc > 1:
+            viol("cli:exit:%s" % name, "exit status %s" % rc)
+            continue
+        if len(created) != nobj:
+            viol("cli:objects-created:%s" % name, "%d objects created, the script creates %d" % (len(created), nobj))
+        for i in created:
+            if destroyed.get(i, 0) == 0:
+                viol("cli:never-destroyed:%s" % name, "object %d was never handed back to the module before the process ended" % i)
+            elif destroyed[i] > 1:
+                viol("cli:destroyed-twice:%s" % name, "object %d destroyed %d times" % (i, destroyed[i]))
+        for b in bad:
+            viol("cli:bad-module-event:%s" % name, b)
+    res.parts.append({"part": "cli", "runs": res.evaluations})
+    return res
+
+
 def run(tier):
     t0 = time.time()
     deadline = t0 + (3000 if tier == "thorough" else 420)
@@ -536,9 +630,10 @@ def run(tier):
             total.parts.append({"part": "frontier-bound", "level": lvl, "distinct_states": len(frontier), "expanded": 1500})
             frontier = sorted(frontier, key=lambda h: (len(h), repr(h)))[:1500]
     total.merge(explore("%s-%s-wrong-module" % (PROP, tier), wrongmod_gen(), check, chunk=5, deadline=deadline))
+    total.merge(cli_pass(tier))
     rule = ("breadth-first search to depth %d over %d statements (construct, copy, overwrite, store in table/tuple, delete, pass, return, temporaries, "
             "chained self(), other(), copy constructor, INOUT, loop, block with raise, failing argument list, forall, make(), function result, callee "
             "keeping a reference, five-argument method) and 3 host events (purge working memory, clone, free clone); %d model-distinct states; each "
-            "history in its own process, followed by release of every context; %d programs offering an object of the other module where vmod was compiled (10 direct + 11 carriers x 10 uses)" % (depth, len(STMTS), states, len(WRONG)))
+            "history in its own process, followed by release of every context; %d programs offering an object of the other module where vmod was compiled (10 direct + 11 carriers x 10 uses); %d scripts through the bloc command (file, stdin, --out, -i): every object destroyed exactly once by process end" % (depth, len(STMTS), states, len(WRONG), len(CLI_PROGS) + len(CLI_INTERACTIVE)))
     return finish(PROP, tier, total, check, rule, t0, extra={"states": states + total.evaluations, "bfs_states": states},
                   assumptions=["reference-count model: holders per object; destruction may be late but not early", "AddressSanitizer guards each object block"])
